@@ -9,8 +9,13 @@ EXTENDS Naturals, Sequences, TLC, Json, IOUtils
 
 PrimOut == IOEnv.VERIF_WORK \o "/prim_out.json"
 
+PrimIn == IOEnv.VERIF_WORK \o "/prim_in.json"
+\* arguments travel on the command line; long ones (a single argument is limited to 128 KB) through a file
 PrimCall(op, args) ==
-  LET r == IOExec(<<IOEnv.VERIF_PRIM, op, ToJson(args), PrimOut>>)
+  LET js == ToJson(args)
+      r == IF Len(js) < 60000 THEN IOExec(<<IOEnv.VERIF_PRIM, op, js, PrimOut>>)
+           ELSE IF JsonSerialize(PrimIn, args) THEN IOExec(<<IOEnv.VERIF_PRIM, op, "@" \o PrimIn, PrimOut>>)
+           ELSE Assert(FALSE, <<"cannot write", PrimIn>>)
   IN IF r.exitValue = 0 THEN JsonDeserialize(PrimOut)
      ELSE Assert(FALSE, <<"primitive failed", op, r.stderr>>)
 
